@@ -68,8 +68,10 @@ CHECKS = {
         text='TLC checks on the specification that every committed data revision has as base the tid of the immediately '
              'preceding revision or is a merge; conformance: for behaviours in which clients store with every serial they '
              'could hold, the real storages must raise ConflictError/ReadConflictError exactly when the specification '
-             'does and the resulting committed history must equal the specification history.',
-        note='storage-level; demo storage in C16; connection-level readCurrent and committer schedules in C02/C11 machinery',
+             'does and the resulting committed history must equal the specification history; 2-3 committer threads on FileStorage, '
+             'MappingStorage and DemoStorage under the cooperative scheduler must leave the TLC-evaluated serial execution in '
+             'the order the commits returned.',
+        note='storage-level; demo layering in C16; connection-level readCurrent in C02',
         design='6/C03'),
     'C05': dict(
         technique='TLA+ spec ZStorage action properties (AbortRestores, WrongTxnNoEffect, NextCanBegin) model-checked by '
@@ -94,7 +96,8 @@ CHECKS = {
         technique='TLA+ spec ZStorage with uninterpreted Merge (StoredIsMerge) model-checked by TLC; behaviours replayed '
                   'with a resolver class that returns a term embedding its three arguments',
         text='The stored record read back is structurally Merge(old, committed, new) with the union of references; TLC '
-             'checks StoredIsMerge; conformance over classes plain / resolving / failing / not importable / declining on '
+             'checks StoredIsMerge; conformance over classes plain / resolving / failing / not importable / declining / resolving with '
+             'constructor arguments that share pickled objects with the state, over strong / weak / bare reference formats, on '
              'store and undo paths, tpc_vote returning exactly the resolved oids.',
         note='file storage paths; demo path in C16',
         design='6/C10'),
@@ -129,7 +132,7 @@ CHECKS = {
         text='TLC checks RollbackRestores (ownership / value on access / root contents / blob bytes = snapshot at Savepoint(k), '
              'repeated and nested), SavepointInvisible, NothingLeftBehind, CommitStoresFinalStates on the design and exhibits F2/F3 '
              'with the constants set (F2 fixed a524578: red if the aliasing returns); tours over five graphs (two savepoints, repeated '
-             'rollback, reachability, conflict at commit, blobs) replayed with projection of TmpStore and of every live savepoint '
+             'rollback, reachability, conflict at commit, blobs, a savepoint or savepoint-commit raising part-way) replayed with projection of TmpStore and of every live savepoint '
              'state tuple and validity, store file closed / blob directory gone, a second connection polled after every action.',
         note='bounded (<=3 savepoints, <=6 actions per transaction; quick samples, thorough exhaustive + simulation); F3 known finding; '
              'state of un-added objects judged by C11',
@@ -166,9 +169,11 @@ CHECKS = {
                   'on FileStorage, historical connections opened at every bound/form and compared with the printed table',
         text='TLC checks HistoricalExact, NeverFromTheFuture, BoundNotInFuture, WritesRefused; conformance: after every commit '
              'of TLC-evaluated histories (later-changed, deleted, un-created, later-created objects, stalled clock) real '
-             'historical connections are opened with before=tid, at=tid, datetime forms (sub-second and whole-second), every '
+             'historical connections are opened with before=tid, at=tid, datetime forms (sub-second, whole-second, naive and timezone-aware), every '
              'object read and compared with the loadBefore table TLC printed; connections kept open across later commits are '
-             're-read; writes must raise ReadOnlyHistoryError and leave the commit lock free; future points must be refused.',
+             're-read; writes must raise ReadOnlyHistoryError and leave the commit lock free; future points must be refused; secondary '
+             'connections of a multi-database obtained from a historical connection must carry the same bound, read the same state '
+             'and refuse writes.',
         note='FileStorage histories without pack; sampled bounds (5 per commit) in quick',
         design='6/C15'),
     'C16': dict(
@@ -184,7 +189,9 @@ CHECKS = {
              'query table (loadBefore at every tid boundary, load, loadSerial, getTid, history at every size, iterator whole '
              'and from every start, undoLog, lastTransaction, len) must equal what TLC printed, and every storage below the '
              'top must be byte/record-identical to its snapshot; states where TLC says transcription != meaning and the code '
-             'conforms are reported with the cause as signature.',
+             'conforms are reported with the cause as signature; 2-3 committer threads on DemoStorage (plain, over a base with '
+             'history, with FileStorage changes) under the cooperative scheduler must leave the TLC-evaluated serial execution in '
+             'the order the commits returned (tids increasing in that order).',
         note='bounded (2 oids, <=3 layers; exhaustive <= 2+3 transactions, scenarios/simulation <= 12); base not packed; blob '
              'records in C13; F10 fixed (b44a8d5); F24, F25, F26 known findings; c16.TREE holds the deviation constants of the tree',
         design='6/C16'),
@@ -233,7 +240,8 @@ CHECKS = {
         technique='TLA+ spec ZStorage action property OidFresh model-checked by TLC; allocation-heavy TLC behaviours '
                   'replayed with an independent freshness monitor on every new_oid',
         text='new_oid of the real storages must return the oid the specification returns and the monitor requires it to be '
-             'new for the session and absent from the storage, through stores/restores of arbitrary oids, aborts, reopen.',
+             'new for the session and absent from the storage, through stores/restores of arbitrary oids (data and undone-creation '
+             'records), aborts, reopen.',
         note='file and mapping storages; demo layers in C16; concurrent allocators with the scheduler part',
         design='6/C20'),
 }
